@@ -112,6 +112,11 @@ func (fc *FnCtx) Generate() (err error) {
 		fc.ghost0[g.Name] = v.T
 		fc.ghostSort[g.Name] = smtSortName(g.Sort)
 	}
+	// allocation clock
+	fc.ghostSort["now"] = sInt
+	fc.declare("now@0", sInt)
+	fc.ghost["now"] = "now@0"
+	fc.ghost0["now"] = "now@0"
 	// lock ghost state
 	fc.ghostSort["held"] = arrSort(sBool)
 	fc.declare("held@0", arrSort(sBool))
@@ -659,7 +664,12 @@ func (fc *FnCtx) enterLoop(li *loopInfo) {
 	fc.heap = h
 	g := map[string]string{}
 	for name, t := range fc.ghost {
-		if li.modRegs["ghost."+name] {
+		if name == "now" {
+			c := qsym(fmt.Sprintf("ghost.now@loop%d", ord))
+			fc.declare(c, sInt)
+			fc.assume(sx(">=", c, t))
+			g[name] = c
+		} else if li.modRegs["ghost."+name] {
 			c := qsym(fmt.Sprintf("ghost.%s@loop%d", name, ord))
 			fc.declare(c, fc.ghostSort[name])
 			g[name] = c
